@@ -125,6 +125,13 @@ def contentHandlers : List Dir :=
 theorem order_rewrite_before_auth : before "rewrite" "basicauth" = true ∧ before "tryfiles" "basicauth" = true := by
   decide
 
+/-- every directive that changes the request path (`tryfiles`, `rewrite`, `ext`) comes before
+every access control that matches on the path (`basicauth`, `internal`), so those see the path
+that is finally served (seeded change C03-ext-moved-after-basicauth) -/
+theorem order_path_rewriters_before_access_controls :
+    (["tryfiles", "rewrite", "ext"].all fun a => ["basicauth", "internal"].all fun c => before a c) = true := by
+  decide
+
 /-- authentication, redirects, fixed statuses and `internal` come before every content handler -/
 theorem order_auth_before_content :
     (["basicauth", "redir", "status", "internal"].all fun a => contentHandlers.all fun c => before a c) = true := by
